@@ -45,6 +45,10 @@ pub enum Kind {
     SwhPod { len: u8 },
     /// `Gc<Lock<PackedBody>>`: a `repr(packed)` payload (alignment 1) holding a strong and a weak edge
     CellP,
+    /// `Gc<RefLock<LeakyBody>>`: one strong edge behind a RefLock whose write guard the client may
+    /// leak (`mem::forget(g.borrow_mut(mc))`, safe code): from then on nobody - not the client, not
+    /// the collector - can borrow it again
+    Leaky,
 }
 
 impl Kind {
@@ -68,6 +72,7 @@ impl Kind {
             Kind::ZLeaf => 0,
             Kind::SwhPod { .. } => 1,
             Kind::CellP => 1,
+            Kind::Leaky => 1,
         }
     }
     pub fn n_weak(self) -> usize {
@@ -291,6 +296,9 @@ pub enum Op {
     HandleIn { h: Hid, op: HandleOp },
     /// ZstCache::alloc / alloc_static of a zero-sized (align 2^a) or an ordinary value
     Zst { id: Id, a: u8, sized: bool, via_static: bool },
+    /// `mem::forget(g.borrow_mut(mc))` on a Leaky object: safe code that leaves the RefLock
+    /// mutably borrowed for ever
+    LeakGuard { obj: Id },
 }
 
 #[derive(Serialize, Deserialize, Clone, Copy, Debug, PartialEq, Eq, PartialOrd, Ord, Hash)]
